@@ -30,13 +30,22 @@ def generate(rng, prop, tier):
     if rng.random() < 0.3:
         d = models.curated(rng.choice(["cv", "rect", "mass_zva", "direct2"]))
     else:
-        d = models.draw(rng, max_states=3, max_controls=3, max_cal=1, max_sensors=3, min_sensors=1, symbol_keys=False, linear=rng.random() < 0.6)
+        d = models.draw(rng, max_states=3, max_controls=3, max_cal=1, max_sensors=3, min_sensors=1, symbol_keys=True, linear=rng.random() < 0.6)
     while not d["sensors"]:
         d = models.draw(rng, max_states=3, max_controls=3, max_cal=1, max_sensors=3, min_sensors=1, symbol_keys=False, linear=True)
     width = len(d["control"]) + sum(len(sd["readings"]) for sd in d["sensors"].values())
     cfg = {"cse": rng.random() < 0.15, "innovation_filtering": rng.choice([None, None, 1.0, 5.0]), "max_dt_sec": fx(rng.choice([0.1, 0.05, 0.5]))}
     mats = {f"m{i}": _matrix(rng, rng.randint(1, 8) if i else rng.randint(3, 8), width, rng.choice([0.5, 1.0, 3.0])) for i in range(rng.randint(2, 4))}
     names = sorted(mats)
+    # unusual-but-legal containers for the data matrix: integer ndarray, plain list of rows
+    mkind = {}
+    for nm in names:
+        r_ = rng.random()
+        if r_ < 0.15:
+            mats[nm] = [[fx(float(rng.randint(-3, 3))) for _ in row] for row in mats[nm]]
+            mkind[nm] = rng.choice(["int64", "list_int"])
+        elif r_ < 0.25:
+            mkind[nm] = "list"
     ops = []
     n_est = 1
     n_fits = 0
@@ -73,7 +82,7 @@ def generate(rng, prop, tier):
             rng.shuffle(fields)
             ops.append({"op": "set_params_config", "est": tgt, "fields": {f: rng.choice(CONFIG_FIELDS[f]) for f in fields}, "faults": []})
         elif r < 0.93:
-            ops.append({"op": "set_params_unknown", "est": tgt, "name": rng.choice(["bogus", "max_dt", "process_noises", "Config", "symbolic_models"]), "faults": ["unknown_param"]})
+            ops.append({"op": "set_params_unknown", "est": tgt, "name": rng.choice(["bogus", "max_dt", "process_noises", "Config", "symbolic_models", "bogus__max_dt_sec", "x__process_noise", "config__bogus", "a__b__calibration_map"]), "faults": ["unknown_param"]})
         else:
             prev = [i for i, o in enumerate(ops) if o["op"] in ("transform", "mahalanobis", "score")]
             if prev:
@@ -85,7 +94,14 @@ def generate(rng, prop, tier):
         for o in ops:
             if o["op"] == "set_params_config" and "common_subexpression_elimination" in o["fields"]:
                 o["fields"]["common_subexpression_elimination"] = False
-    return {"config": cfg, "model": d, "matrices": mats, "ops": ops, "faults": []}
+    if prop == "C17" and n_fits < 2 and ("linear" in d.get("tags", []) or d["name"] != "swarm") and rng.random() < 0.2:
+        # failed fit -> reconfigure -> successful fit on the same instance (state a failed fit may leave behind)
+        mats["fa"] = _matrix(rng, 4, width, 1.0)
+        fields = rng.sample(sorted(CONFIG_FIELDS), 2)
+        ops = [{"op": "fit", "est": 0, "X": "fa", "minimize": "fail_after:%d" % rng.randint(1, 4), "faults": ["minimize:fail_after"]},
+               {"op": "set_params_config", "est": 0, "fields": {f: rng.choice(CONFIG_FIELDS[f]) for f in fields if f != "common_subexpression_elimination"} or {"max_dt_sec": 0.05}, "faults": []},
+               {"op": "fit", "est": 0, "X": "fa", "minimize": "early_stop:%d" % rng.randint(1, 4), "faults": ["minimize:early_stop", "fit_after_failed_fit"]}] + ops
+    return {"config": cfg, "model": d, "matrices": mats, "matrix_kind": mkind, "ops": ops, "faults": []}
 
 
 # --------------------------------------------------------------------------- helpers
@@ -97,10 +113,10 @@ def snapshot(est):
         "keys": sorted(p),
         "model": None if sm is None else {"state": sorted(str(s) for s in sm.state), "control": sorted(str(s) for s in sm.control), "calibration": sorted(str(s) for s in sm.calibration),
                                           "state_model": {str(k): srepr(v) for k, v in sorted(sm.state_model.items(), key=lambda kv: str(kv[0]))}, "dt": str(sm.dt)},
-        "process_noise": sorted((str(k), float(v).hex()) for k, v in p["process_noise"].items()),
-        "sensor_models": {str(k): {str(r): srepr(e) for r, e in sorted(v.items(), key=lambda kv: str(kv[0]))} for k, v in sorted(p["sensor_models"].items())},
-        "sensor_noises": {str(k): sorted((str(r), float(n).hex()) for r, n in v.items()) for k, v in sorted(p["sensor_noises"].items())},
-        "calibration_map": sorted((str(k), float(v).hex()) for k, v in (p["calibration_map"] or {}).items()),
+        "process_noise": sorted((str(k), type(k).__name__, float(v).hex()) for k, v in p["process_noise"].items()),
+        "sensor_models": {str(k): {str(r): [type(r).__name__, srepr(e)] for r, e in sorted(v.items(), key=lambda kv: str(kv[0]))} for k, v in sorted(p["sensor_models"].items())},
+        "sensor_noises": {str(k): sorted((str(r), type(r).__name__, float(n).hex()) for r, n in v.items()) for k, v in sorted(p["sensor_noises"].items())},
+        "calibration_map": sorted((str(k), type(k).__name__, float(v).hex()) for k, v in (p["calibration_map"] or {}).items()),
         "config": config_dict(p["config"]),
     }, sort_keys=True)
 
@@ -117,6 +133,7 @@ def by_hand_nis(est, d, X):
     keys = sorted(d["sensors"])
     st, cov = f.State(), f.Covariance()
     out = []
+    X = np.asarray(X, dtype=float)
     for row in X:
         ctl = f.Control(**{u: float(row[j]) for j, u in enumerate(U)})
         with contextlib.redirect_stdout(io.StringIO()):
@@ -135,6 +152,20 @@ def by_hand_nis(est, d, X):
     return np.array(out, dtype=float).reshape(len(X), len(keys))
 
 
+def expected_noise_from_x(d, x):
+    """the documented flattening: process noise per control in name order, then per sensor key (sorted) per reading (sorted); floor 1e-6"""
+    x = [float(v) for v in x]
+    U = sorted(d["control"])
+    pn = {u: max(1e-6, x[i]) for i, u in enumerate(U)}
+    off = len(U)
+    sn = {}
+    for key in sorted(d["sensors"]):
+        rn = sorted(d["sensors"][key]["readings"])
+        sn[key] = {r: max(1e-6, x[off + j]) for j, r in enumerate(rn)}
+        off += len(rn)
+    return pn, sn
+
+
 class MinimizeSeam:
     """Fault seam on formak.python.minimize (the name the module imported from scipy)."""
 
@@ -142,6 +173,7 @@ class MinimizeSeam:
         self.real = real
         self.mode = "real"
         self.evaluations = 0
+        self.last_x = None
 
     def __call__(self, fun, x0, *a, **k):
         from scipy.optimize import OptimizeResult
@@ -153,8 +185,11 @@ class MinimizeSeam:
             self.evaluations += 1
             return fun(x)
 
+        self.last_x = None
         if mode == "real":
-            return self.real(counted, x0, *a, **k)
+            r_ = self.real(counted, x0, *a, **k)
+            self.last_x = None if not getattr(r_, "success", False) else np.array(r_.x, dtype=float)
+            return r_
         kind, _, j = mode.partition(":")
         j = int(j or 0)
         if kind == "fail_after":
@@ -166,12 +201,14 @@ class MinimizeSeam:
             for i in range(j):
                 x = x0 * (1.0 + 0.1 * (i + 1))
                 counted(x)
+            self.last_x = np.array(x, dtype=float)
             return OptimizeResult(x=x, success=True, message="fsim: stopped early", fun=0.0, nit=j)
         if kind == "negative_probe":
             # what an unconstrained optimiser legitimately does: evaluate the objective at a point with a negative noise entry
             x = np.array(x0, dtype=float)
             x[-1] = -abs(x[-1]) - 0.5
             counted(x)
+            self.last_x = np.array(x0, dtype=float)
             return OptimizeResult(x=x0, success=True, message="fsim: probed a negative noise", fun=0.0, nit=1)
         raise ValueError(mode)
 
@@ -189,7 +226,20 @@ def execute(schedule) -> Result:
     config = python.Config(common_subexpression_elimination=cfg["cse"], innovation_filtering=cfg["innovation_filtering"], max_dt_sec=xf(cfg["max_dt_sec"]))
     est0 = python.SklearnEKFAdapter.Create(b["model"], b["process_noise"], b["sensor_models"], b["sensor_noises"], b["calibration_map"], config=config)
     pool = [est0]
-    mats = {k: np.array([[xf(v) for v in row] for row in m], dtype=float) for k, m in schedule["matrices"].items()}
+    mats = {}
+    for k_, m in schedule["matrices"].items():
+        kind_ = schedule.get("matrix_kind", {}).get(k_, "float64")
+        vals = [[xf(v) for v in row] for row in m]
+        if kind_ == "int64":
+            mats[k_] = np.array(vals, dtype=np.int64)
+        elif kind_ == "list_int":
+            mats[k_] = [[int(v) for v in row] for row in vals]
+        elif kind_ == "list":
+            mats[k_] = vals
+        else:
+            mats[k_] = np.array(vals, dtype=float)
+        if kind_ != "float64":
+            res.stats[f"fault:matrix_{kind_}"] += 1
     first = {}  # op index -> (kind, est index, X name, explain, value bytes, params snapshot at that time)
     seam = MinimizeSeam(python.minimize)
     python.minimize = seam
@@ -304,6 +354,14 @@ def execute(schedule) -> Result:
                 res.stats["objective_evaluations"] += seam.evaluations
                 if outcome == "returned":
                     _check_fit(res, i, before, ret, est)
+                    if seam.last_x is not None:
+                        pn, sn = expected_noise_from_x(d, seam.last_x)
+                        gp = {str(k_): float(v) for k_, v in ret.get_params()["process_noise"].items()}
+                        gs = {str(k_): {str(r): float(v) for r, v in m_.items()} for k_, m_ in ret.get_params()["sensor_noises"].items()}
+                        bad = [(u, gp.get(u), v) for u, v in pn.items() if gp.get(u) is None or abs(gp[u] - v) > 1e-12 * (1 + abs(v))]
+                        bad += [(f"{k_}.{r}", gs.get(k_, {}).get(r), v) for k_, m_ in sn.items() for r, v in m_.items() if gs.get(k_, {}).get(r) is None or abs(gs[k_][r] - v) > 1e-12 * (1 + abs(v))]
+                        if bad:
+                            res.add("C17", "fit_noise_binding", "C17:py:fit_noise_binding", i, "each fitted magnitude is the optimiser's value for THAT control / sensor reading (name order flattening)", f"(name, fitted, optimiser) = {bad[:4]}")
                 elif outcome.startswith("raised"):
                     break
                 res.abstract.append(f"fit|{op['minimize'].split(':')[0]}|{outcome.split(':')[0]}")
@@ -377,12 +435,12 @@ def _check_fit(res, i, before, ret, est):
     for part in ("model", "sensor_models", "calibration_map", "config", "keys"):
         if a[part] != b[part]:
             res.add("C17", "fit_changed", f"C17:py:fit_changed:{part}", i, f"fit leaves {part} as it was", f"{str(b[part])[:150]} -> {str(a[part])[:150]}")
-    if [k for k, _ in a["process_noise"]] != [k for k, _ in b["process_noise"]]:
-        res.add("C17", "fit_noise_keys", "C17:py:fit_noise_keys:process", i, f"fitted process noise names exactly {[k for k, _ in b['process_noise']]}", f"{[k for k, _ in a['process_noise']]}")
-    if {k: [r for r, _ in v] for k, v in a["sensor_noises"].items()} != {k: [r for r, _ in v] for k, v in b["sensor_noises"].items()}:
-        res.add("C17", "fit_noise_keys", "C17:py:fit_noise_keys:sensor", i, "fitted sensor noise names exactly the sensors and readings of the original", f"{ {k: [r for r, _ in v] for k, v in a['sensor_noises'].items()} }")
-    vals_p = [float.fromhex(v) for _, v in a["process_noise"]]
-    vals_s = [float.fromhex(v) for m in a["sensor_noises"].values() for _, v in m]
+    if [e[:2] for e in a["process_noise"]] != [e[:2] for e in b["process_noise"]]:
+        res.add("C17", "fit_noise_keys", "C17:py:fit_noise_keys:process", i, f"fitted process noise names exactly {[e[:2] for e in b['process_noise']]}", f"{[e[:2] for e in a['process_noise']]}")
+    if {k: [e[:2] for e in v] for k, v in a["sensor_noises"].items()} != {k: [e[:2] for e in v] for k, v in b["sensor_noises"].items()}:
+        res.add("C17", "fit_noise_keys", "C17:py:fit_noise_keys:sensor", i, "fitted sensor noise names exactly the sensors and readings of the original", f"{ {k: [e[:2] for e in v] for k, v in a['sensor_noises'].items()} }")
+    vals_p = [float.fromhex(e[-1]) for e in a["process_noise"]]
+    vals_s = [float.fromhex(e[-1]) for m in a["sensor_noises"].values() for e in m]
     if not all(math.isfinite(v) for v in vals_p + vals_s):
         res.add("C17", "fit_noise_finite", "C17:py:fit_noise_finite", i, "every fitted magnitude finite", f"{vals_p} {vals_s}")
     if not all(v > 0 for v in vals_p):
